@@ -462,7 +462,7 @@ var alphabet = []byte{0x00, 0x01, 0x02, 0x04, 0x05, 0x07, 0x08, 0x0A, 0x0D, 0x7F
 func runTotal(cfg *config, res *monitor.Result) {
 	w := &totalWorker{cfg: cfg, res: res, classes: map[string]int64{}}
 	// (a) exhaustive strings over the alphabet
-	maxLen := 4
+	maxLen := 5
 	if cfg.thorough() {
 		maxLen = 6
 	}
